@@ -35,6 +35,9 @@ def explore(chk, tier, model_exe, budget="run"):
         scalaremb.header_part(chk, PROP, tier, model_exe, stats, budget)
         timing["generated_headers"] = round(time.time() - t0, 1)
         t0 = time.time()
+        scalaremb.testdata_part(chk, PROP, tier, model_exe, stats, budget)
+        timing["testdata_headers"] = round(time.time() - t0, 1)
+        t0 = time.time()
     stats.pop("_reported", None)
     chk.extra["distribution"] = dict(sorted(stats.items()))
     return stats
@@ -66,6 +69,11 @@ def run(tier):
 
 def replay(path):
     rec = json.load(open(path))
+    if rec.get("kind_of_input") == "testdata":
+        print("testdata module %s, field %s: rerun `./check %s` (the case is regenerated "
+              "deterministically from VERIF_SEED=%s); recorded observation: %s" % (
+                  rec.get("input"), rec.get("field"), PROP, rec.get("seed"), rec.get("observed")))
+        return scalarcheck.replay_direct(rec) if "config" in rec else 0
     if rec.get("kind_of_input") == "emb-module":
         from harness.lib import scalaremb
         return scalaremb.replay(rec)
